@@ -8,6 +8,7 @@ static char *blk;
 #ifdef VF_REAL
 #include <stdio.h>
 #include <unistd.h>
+#include <stdlib.h>
 static char path[64];
 #else
 static char path[8] = "n.col";
@@ -32,7 +33,7 @@ static void mkbuf(void) {
   for (u32 i = 0; i < MAXLEN; i++) { if (i >= n) break; if (vf_names_buf[i] == '\n') { u32 e = i; if (e > st && vf_names_buf[e - 1] == '\r') e--; line_start[nlines] = st; line_len[nlines] = e - st; nlines++; st = i + 1; } }
   has_tail = st != n;
 #ifdef VF_REAL
-  snprintf(path, sizeof path, "/tmp/vf_c19_%d.col", (int)getpid());
+  { const char *td = getenv("VF_TMP"); snprintf(path, sizeof path, "%s/vf_c19_%d.col", td ? td : "/tmp", (int)getpid()); }      /* VF_TMP: the check's scratch directory (removed at the end of the run) */
   FILE *f = fopen(path, "wb"); fwrite(vf_names_buf, 1, n, f); fclose(f);
 #endif
 }
